@@ -38,6 +38,7 @@ var Check = &mc.Check{
 	Level: "model_checking",
 	Rule: "mutators = every exported method and exported field of RequestContext/Request/Response/RequestHeader/ResponseHeader/URI/Args(query,post)/Trailer(req,resp) enumerated by reflection (connection-scoped setters and the reset functions themselves excluded by a written list), called with hostile arguments; " +
 		"histories = every single mutator x outcome {return, Abort, panic caught by recovery, hijacked chunked writer} x engine {buffered, streaming with the body left unread} and every ordered pair over a reduced alphabet, then a fixed probe request; placements = same keep-alive connection / new connection with the pooled context (pointer identity asserted); plus Acquire->mutate->Release->Acquire for Request, Response, URI, Cookie, Args; " +
+		"client part = acquired Request/Response through one client exchange (buffered / stream mode x 6 response shapes x 3 request shapes) x every program of <=2 (thorough 3) application actions on the response x Release before / during the probe, probe = two exchanges alive at once + a third, compared with never-pooled objects; 10 placements of an unrelated thread around GetURL(dst); one process per case; " +
 		"non-trivial = histories after which the dirty request's own state differed from a fresh one (i.e. the mutator had an effect that a reset must undo)",
 	Run:    run,
 	Replay: replay,
@@ -51,7 +52,8 @@ type Case struct {
 	Ops       []string `json:"ops"` // "Target.Method" or "Target#Field"
 	Outcome   string   `json:"outcome"`
 	Streaming bool     `json:"streaming"`
-	Placement string   `json:"placement"` // keepalive | pool | acquire
+	Placement string   `json:"placement"` // keepalive | pool | acquire | client
+	Client    *XCase   `json:"client,omitempty"`
 }
 
 // targets reachable from a RequestContext
@@ -744,13 +746,18 @@ func run(c *mc.Ctx) {
 		c.Add("status_"+st, 1)
 		pool <- w
 	})
-	c.Add("nontrivial", c.Get("status_same")+c.Get("status_differs"))
+	runClientPart(c)
+	c.Add("nontrivial", c.Get("status_same")+c.Get("status_differs")+c.Get("client_status_same")+c.Get("client_status_differs"))
 	_ = io.Discard
 }
 
 func replay(c *mc.Ctx, raw json.RawMessage) {
 	var cs Case
 	if json.Unmarshal(raw, &cs) != nil {
+		return
+	}
+	if cs.Placement == "client" && cs.Client != nil {
+		replayClient(c, *cs.Client)
 		return
 	}
 	if len(refs[false]) == 0 {
